@@ -79,7 +79,7 @@ type World struct {
 	FaultOps              []string // labels of the calls during which an injected fault fired
 	NeedReopen            bool     // a failed FlushRevert: contents unspecified until re-opened
 	OpenFailed            bool
-	ObserveRevertedSnaps  bool // C08: a snapshot is compared with its own flush stack right after its FlushRevert
+	ObserveRevertedSnaps  bool               // C08: a snapshot is compared with its own flush stack right after its FlushRevert
 	BytesOrderOnly        bool               // the alphabet never creates a collection with a custom order
 	NoRoots               bool               // the file holds no root record and NewStore said so
 	DstFault              func(dst *MemFile) // arms fault injection on a CopyTo destination
